@@ -97,9 +97,12 @@ class Module:
         """
         Returns a list of all parameters in the module
         """
-        params = list(self._parameters.values())
-        for m in self.submodules():
-            params += m.parameters()
+        params = []
+        seen = set()
+        for p in list(self._parameters.values()) + [p for m in self.submodules() for p in m.parameters()]:
+            if id(p) not in seen: # a parameter shared between parents is reported once
+                seen.add(id(p))
+                params.append(p)
         return params
     
     def submodules(self) -> list['Module']:
